@@ -97,6 +97,28 @@ pub fn main(args: &[String]) -> i32 {
             if matches!(a.find_file("never\\added.txt"), Ok(None)) {} else { println!("FAIL never-added name resolves"); bad += 1; }
             if bad == 0 { println!("ok"); 0 } else { 1 }
         }
+        Some("mk02") => {
+            // archives restricted to the published subset (V1/V2, classic tables, none/zlib/bzip2, plain/encrypted[/fix-key]);
+            // writes <dir>/a<i>.mpq and <dir>/a<i>.txt (one `namehex method enc datarle` line per file, first line = config)
+            let (dir, seed, n) = (&args[1], args[2].parse::<u64>().unwrap_or(1), args[3].parse::<usize>().unwrap_or(10));
+            let mut rng = Rng::new(seed);
+            for i in 0..n {
+                let (mut cfg, mut files) = crate::c01::gen_case(&mut rng, true);
+                cfg.ver %= 2; cfg.table_comp = false; cfg.attrs = 0;
+                for f in &mut files { if f.method != 0 && f.method != 0x02 && f.method != 0x10 { f.method = if rng.chance(1, 2) { 0x02 } else { 0x10 }; } }
+                let p = std::path::Path::new(dir).join(format!("a{i}.mpq"));
+                if crate::c01::build(&cfg, &files, &p).is_err() { continue; }
+                let mut txt = format!("cfg ver={} shift={} crc={} listfile={}\n", cfg.ver, cfg.shift, cfg.crc, cfg.listfile);
+                for f in &files { txt.push_str(&format!("{} {} {} {}\n", crate::common::hex(f.name.as_bytes()), f.method, f.enc, crate::c18_wdt::canon_rle(&f.data))); }
+                std::fs::write(std::path::Path::new(dir).join(format!("a{i}.txt")), txt).ok();
+            }
+            0
+        }
+        Some("header") => {
+            match Archive::open(&args[1]) { Ok(a) => { let h = a.header();
+                println!("hdr={} size={} ver={} shift={} hash={}/{} block={}/{}", h.header_size, h.archive_size, h.format_version as u16, h.block_size, h.get_hash_table_pos(), h.hash_table_size, h.get_block_table_pos(), h.block_table_size); 0 }
+                Err(e) => { println!("ERR {e}"); 1 } }
+        }
         Some("remove") => {
             // preparation step for compact (not traced): remove one file and flush, leaving reclaimable space
             let dest = &args[1];
